@@ -49,6 +49,8 @@ type SchedCase struct {
 	Flow       []RegionFlow `json:"flow,omitempty"`
 	StoreFlows []StoreFlow  `json:"store_flows,omitempty"`
 	Events     []StoreEvent `json:"events,omitempty"`
+	// RegionEvents: regions change by other means between two Schedule calls of the same scheduler object
+	RegionEvents []RegionEvent `json:"region_events,omitempty"`
 	Seed       int64        `json:"seed"`
 }
 
@@ -142,6 +144,33 @@ func genSchedCase(t *rapid.T) SchedCase {
 			c.RangeTo = simkit.IntU(t, c.RangeFrom, nr-1, "rangeTo")
 		}
 	}
+	c.RegionEvents = genRegionEvents(t, len(c.Cluster.Stores), nr, c.Rounds)
+	// "an attractive target is busy at first": a healthy ordinary store is busy while the scheduler is used
+	// for the first time(s); later it recovers and, at the same moment, peers of several regions have moved
+	// onto it by other means. Then the same scheduler object runs again.
+	if (c.Type == "scatter-range" && simkit.Pct(t, 60, "busyTarget")) || (c.Type != "scatter-range" && simkit.Pct(t, 8, "busyTargetAny")) {
+		var cand []int
+		for i := range c.Cluster.Stores {
+			s := &c.Cluster.Stores[i]
+			if c.Cluster.AcceptsPeer(s.ID) && !s.HasExclusiveLabel() {
+				cand = append(cand, i)
+			}
+		}
+		if len(cand) > 0 {
+			ti := simkit.Pick(t, cand, "busyTargetStore")
+			c.Cluster.Stores[ti].Busy = true
+			if c.Rounds < 4 {
+				c.Rounds = simkit.IntU(t, 4, 8, "roundsBusyTarget")
+			}
+			at := simkit.IntU(t, 1, c.Rounds-2, "recoverAt")
+			c.Events = append(c.Events, StoreEvent{At: at, Kind: "unbusy", Stores: []int{ti}})
+			k := simkit.IntU(t, 2, min(nr, 10), "movedOntoTarget")
+			for _, ri := range rapid.Permutation(idx(nr)).Draw(t, "movedRegions")[:k] {
+				c.RegionEvents = append(c.RegionEvents, RegionEvent{At: at, Region: ri, Kind: "move",
+					Peer: simkit.IntU(t, 0, 5, "movedPeer"), Target: ti})
+			}
+		}
+	}
 	return c
 }
 
@@ -168,7 +197,7 @@ type schedStats struct {
 	ops, moved, leaderOnly, rounds, legacy, joint int
 	handBack                                      bool
 	prepareRefused                                bool
-	fellSilent                                    int
+	fellSilent, regionEvents                      int
 	skippedLeaderless                             bool
 }
 
@@ -203,6 +232,8 @@ func runSchedCase(c SchedCase) (vkit.Info, error) {
 	info.ClassIf(first.ops >= 3, "operators>=3")
 	info.ClassIf(first.fellSilent > 0, "store-fell-silent-after-first-use")
 	info.ClassIf(len(c.Events) > 0, "store-event")
+	info.ClassIf(first.regionEvents > 0, "region-changed-behind-the-scheduler")
+	info.ClassIf(first.regionEvents > 0 && first.ops > 0, "region-changed-behind-the-scheduler:"+c.Type)
 	info.ClassIf(first.legacy > 0, "operator:without-joint-consensus")
 	info.ClassIf(first.joint > 0, "operator:joint-consensus")
 	info.ClassIf(first.prepareRefused, "prepare-refused")
@@ -284,6 +315,11 @@ func runSchedOnce(c *SchedCase, x *opCtx, rep int) (*schedStats, error) {
 	for round := 0; round < c.Rounds; round++ {
 		if round >= 1 {
 			st.fellSilent += l.applyEvents(c.Events, round)
+			n, err := l.applyRegionEvents(c.RegionEvents, round)
+			if err != nil {
+				return nil, err
+			}
+			st.regionEvents += n
 		}
 		if !s.IsScheduleAllowed(l.mc) {
 			break
